@@ -30,6 +30,15 @@ func ExecTree(sc sim.Script) *sim.Outcome {
 		w.step = len(s.Ops)
 		w.final()
 	}
+	if w.disk != nil {
+		w.stats.Add("fault.diskrd", int64(w.disk.St.ReadErrs))
+		w.stats.Add("fault.diskwr", int64(w.disk.St.WriteErrs))
+		w.stats.Add("sim.disk-writes", int64(w.disk.St.Writes))
+		w.stats.Add("sim.disk-reads", int64(w.disk.St.Reads))
+	}
+	for _, t := range w.tries {
+		w.log.Printf("trie %d open=%v root=%x model=%s", t.id, t.open, t.mpt.GetRoot(), mapDigest(t.model))
+	}
 	o := &sim.Outcome{V: w.v, Stats: w.stats, Digest: w.log.Digest()}
 	for k := range w.states {
 		o.States = append(o.States, k)
